@@ -302,6 +302,13 @@ def run(rep, tier):
             if sig not in h_classes:
                 h_classes[sig] = 1
                 rep.violation(sig, what, rp)
+    for ver in ("2.x", "1.0"):
+        r = H.explore_single(ver)
+        rep.add("S_single_statement_files", r["S_files"])
+        rep.add("S_parses", r["S_parses"])
+        for sig, what, rp in r["viol"]:
+            h_classes[sig] = 1
+            rep.violation(sig, what, rp)
     rep.set("violation_classes", {**l_classes, **e_classes, **h_classes})
     rep.set("evaluations", rep.cov.get("L_evals", 0) + rep.cov.get("E_loads", 0))
     rep.set("distinct_nontrivial", rep.cov.get("L_changed_and_parsed", 0) + rep.cov.get("E_parse_error", 0))
@@ -326,7 +333,7 @@ def _sample_text():
 
 
 def replay(rp):
-    if rp.get("part") == "H":
+    if rp.get("part") in ("H", "S"):
         from vf.props import c13_history as H
         return H.replay(rp)
     from vf.props import c13_errors as E
